@@ -14,7 +14,7 @@ import (
 )
 
 func init() {
-	register(&PropInfo{ID: "C16", Run: runC16, UseRace: false, Level: "exploration"})
+	register(&PropInfo{ID: "C16", Run: runC16, UseRace: true, Level: "exploration"})
 }
 
 type c16Inner struct {
